@@ -31,6 +31,9 @@ import (
 
 var ctxbg = context.Background()
 
+// hangAfter: a call that has not returned by then is recorded as hung (its goroutine is abandoned).
+const hangAfter = 8 * time.Second
+
 // StoreKinds are the storage configurations the concurrent programs run on.
 var StoreKinds = []string{"mem", "localdisk", "files", "diskpacked", "proxy", "shard"}
 
@@ -227,8 +230,12 @@ func genProgram(r *hk.Rand, kind string, thorough bool) program {
 	if thorough {
 		opsPer = 5 + r.Intn(10)
 	}
-	if nClients*opsPer > 110 {
-		opsPer = 110 / nClients
+	maxCalls := 110
+	if kind != "mem" {
+		maxCalls = 64 // stores whose histories may need the (costlier) anomaly classification
+	}
+	if nClients*opsPer > maxCalls {
+		opsPer = maxCalls / nClients
 	}
 	p := program{Kind: kind, Pool: genPool(r, poolN), YLevel: int32(1 + r.Intn(2))}
 	switch kind {
@@ -338,7 +345,7 @@ func runProgram(p program, race bool) (*history, error) {
 	h := &history{Kind: p.Kind, Cfg: s.cfg, Pool: p.Pool, Clients: len(p.Clients), Race: race}
 	y0 := yCount.Load()
 	yLevel.Store(p.YLevel)
-	h.Recs, h.Hung = runClients(p.Clients, func(in opIn) string { return execStoreOp(s.sto, p.Pool, refs, in) }, 20*time.Second)
+	h.Recs, h.Hung = runClients(p.Clients, func(in opIn) string { return execStoreOp(s.sto, p.Pool, refs, in) }, hangAfter)
 	yLevel.Store(0)
 	h.Yields = yCount.Load() - y0
 	if h.Hung {
